@@ -20,14 +20,17 @@ variable {W : Type}
 /-- packets addressed to one of the protected addresses -/
 def ForB (ba : List Ip) (pkt : Packet) : Prop := ba.contains pkt.dstIp = true
 
-theorem dstCovers_sound (r : Rule) (a : Ip) (p : Packet) (h : dstCovers r a = true) (hp : p.dstIp = a) : r.hits? p = true := by
-  simp only [dstCovers, Bool.and_eq_true, Option.isNone_iff_eq_none] at h
+theorem dstCovers_sound (r : Rule) (a : Ip) (p : Packet) (h : dstCovers r a p.proto = true) (hp : p.dstIp = a) :
+    r.hits? p = true := by
+  simp only [dstCovers, Bool.and_eq_true, Option.isNone_iff_eq_none, Bool.or_eq_true, beq_iff_eq] at h
   obtain ⟨⟨⟨⟨h1, h2⟩, h3⟩, h4⟩, h5⟩ := h
-  simp [Rule.hits?, protoMatches, portMatches, h1, h3, h4, hp, h5]
+  have hpr : protoMatches r.proto p.proto = true := by
+    rcases h1 with h1 | h1 <;> simp [protoMatches, h1]
+  simp [Rule.hits?, hpr, portMatches, h3, h4, hp, h5]
   simp [addrMatches, h2]
 
 theorem denyDstScan_sound (a : Ip) (p : Packet) (hp : p.dstIp = a) (imp : Action) :
-    ∀ (rules : List (Option Rule)) (off : Nat), denyDstScan a rules imp = true →
+    ∀ (rules : List (Option Rule)) (off : Nat), denyDstScan a p.proto rules imp = true →
       match firstMatch p rules off with
       | some (_, r) => r.action = .deny
       | none => imp = .deny := by
@@ -48,17 +51,31 @@ theorem denyDstScan_sound (a : Ip) (p : Packet) (hp : p.dstIp = a) (imp : Action
         · exact absurd (dstCovers_sound r a p hcov hp) hm
         · exact ih (off + 1) hrest
 
+theorem proto_mem_all (pr : Proto) : pr ∈ allProtos := by cases pr <;> simp [allProtos]
+
 /-- **Soundness of the destination scan**: a list that passes `denyDstCheck ba` denies every packet addressed to an address
-of `ba`, whatever its source, protocol and ports, and whatever else the list holds behind the covering DENY rules. -/
+of `ba`, whatever its source, PROTOCOL and ports, and whatever else the list holds behind the covering DENY rules.  The scan asks
+for a covering DENY rule per protocol value (an any-protocol rule covers all four). -/
 theorem C06_denyDstCheck_sound (ba : List Ip) (a : Acl) (h : denyDstCheck ba a = true) : DeniesClass (ForB ba) a := by
   intro p hp
   have hmem : p.dstIp ∈ ba := by simpa [ForB] using hp
-  have hs := List.all_eq_true.mp h _ hmem
+  have hs := List.all_eq_true.mp (List.all_eq_true.mp h _ hmem) p.proto (proto_mem_all p.proto)
   have := denyDstScan_sound p.dstIp p rfl a.implicit a.rules 0 hs
   unfold isPermitted
   cases hf : firstMatch p a.rules 0 with
   | none => simp only [hf] at this; simp [this]
   | some ir => obtain ⟨i, r⟩ := ir; simp only [hf] at this; simp [this]
+
+/-- **DENY tcp, DENY udp, DENY icmp is not a block**: a protocol-`none` frame (an nmap scan with `target_protocol="none"` builds
+one) addressed to B is permitted by such a list — reproduced on the running code by R-net's control scenario; four rules
+(`none` included) pass the scan. -/
+theorem C06_three_protocols_not_a_block :
+    let three : Acl := { rules := [some { anyPattern with proto := some .tcp }, some { anyPattern with proto := some .udp },
+                                   some { anyPattern with proto := some .icmp }] ++ List.replicate 7 none ++
+                                  [some { anyPattern with action := .permit }] ++ List.replicate 13 none, implicit := .deny }
+    let four : Acl := { three with rules := three.rules.set 3 (some { anyPattern with proto := some .none }) }
+    (isPermitted three { proto := .none, srcIp := 0x0A00010A#32, dstIp := 0x0A000214#32, ports := none }).1 = true ∧
+    denyDstCheck [0x0A000214#32] three = false ∧ denyDstCheck [0x0A000214#32] four = true := by decide
 
 /-- **A host ignores every frame that is not addressed to it at layer 3**: when the destination address is none of the
 host's interface addresses and not the arrival subnet's broadcast address, the NIC drops the frame before the node sees
